@@ -430,7 +430,8 @@ def gen_typed(rng):
 
 
 def gen_fixed_classes():
-    for cls, cases in (('inf-keys', INF_CASES), ('bool-number-keys', BOOL_NUMBER_CASES)):
+    # bools are not in the property's key universe (None, ints, floats, strings, datetimes): the bool-next-to-numbers class is not enumerated
+    for cls, cases in (('inf-keys', INF_CASES),):
         for left, right in cases:
             for l, r in ((left, right), (right, left)):
                 yield mk_spec(['a', 'v', 'li'], typed_rows(l, 10), ['a', 'v', 'ri'], typed_rows(r, 100), 'a', None, None, [0], [0], spell='str', cls=cls)
